@@ -86,6 +86,8 @@ def _val(v):
         return bool(z3.is_true(v))
     if z3.is_bv_value(v):             # unsigned bit-vector integers of symx.zint
         return [v.as_long(), 1]
+    if z3.is_string_value(v):         # symx.symstr
+        return {"str": v.as_string()}
     return None
 
 
